@@ -329,6 +329,11 @@ pub mod sync {
         hooked_atomic!(AtomicI64, AtomicI64, i64, |v: i64| v as u64, |v: u64| v as i64, int = true);
         hooked_atomic!(AtomicUsize, AtomicUsize, usize, |v: usize| v as u64, |v: u64| v as usize, int = true);
         hooked_atomic!(AtomicBool, AtomicBool, bool, |v: bool| v as u64, |v: u64| v != 0, int = false);
+        hooked_atomic!(AtomicIsize, AtomicIsize, isize, |v: isize| v as u64, |v: u64| v as isize, int = true);
+        hooked_atomic!(AtomicU32, AtomicU32, u32, |v: u32| v as u64, |v: u64| v as u32, int = true);
+        hooked_atomic!(AtomicI32, AtomicI32, i32, |v: i32| v as u64, |v: u64| v as i32, int = true);
+        hooked_atomic!(AtomicU16, AtomicU16, u16, |v: u16| v as u64, |v: u64| v as u16, int = true);
+        hooked_atomic!(AtomicU8, AtomicU8, u8, |v: u8| v as u64, |v: u64| v as u8, int = true);
     }
 
     fn lock_op(addr: usize, kind: OpKind) -> Op {
@@ -785,4 +790,28 @@ impl std::hash::BuildHasher for MapState {
             None => self.random.build_hasher(),
         }
     }
+}
+
+// ---------------------------------------------------------------- drop-in module paths
+
+/// Stands in for `std::sync` in the verification copy of the sources (the harness rewrites
+/// `std::sync::` to `crate::verif::stdsync::` before building): everything std exports, with the
+/// mutex and the atomics replaced by the reporting ones. What is not replaced (`RwLock`, `Condvar`,
+/// `Once`, `mpsc`, ...) stays std's and is listed by the harness's hook audit.
+pub mod stdsync {
+    pub use super::sync::{Mutex, MutexGuard};
+    pub use std::sync::*;
+
+    pub mod atomic {
+        pub use super::super::sync::atomic::{
+            fence, AtomicBool, AtomicI32, AtomicI64, AtomicIsize, AtomicU16, AtomicU32, AtomicU64, AtomicU8, AtomicUsize,
+        };
+        pub use std::sync::atomic::*;
+    }
+}
+
+/// Stands in for `parking_lot` in the verification copy of the sources.
+pub mod plsync {
+    pub use super::sync::{RwLock, RwLockReadGuard, RwLockWriteGuard};
+    pub use parking_lot::*;
 }
